@@ -7,33 +7,35 @@ EXTENDS Integers, Sequences, FiniteSets, TLC, Json
 TraceLog == ndJsonDeserialize("trace.ndjson")
 AllTokens == {"t1", "t2", "t3", "t4", "t5", "t6", "t7", "t8", "t9", "t10", "t11", "t12"}
 AllAddrs == {"a1", "a2"}
-VARIABLES l, issuedAt, loggedOut, admitted, cfg, viol
-ovars == <<l, issuedAt, loggedOut, admitted, cfg, viol>>
-P(e, ia, lo, ad, c) == INSTANCE ConsoleAuthProps WITH
-      req <- [cookie |-> IF e.ev = "Request" THEN e.cookie ELSE "none", served |-> IF e.ev = "Request" THEN e.served ELSE FALSE],
-      now <- e.now, issuedAt <- ia, loggedOut <- lo, ttl <- c.ttl, admitted <- ad, window <- c.window, limit <- c.limit
+VARIABLES l, issuedAt, loggedOut, loggedOutJars, admitted, cfg, viol
+ovars == <<l, issuedAt, loggedOut, loggedOutJars, admitted, cfg, viol>>
+P(e, ia, lo, lj, ad, c) == INSTANCE ConsoleAuthProps WITH
+      req <- [cookies |-> IF e.ev = "Request" THEN e.cookies ELSE <<>>, served |-> IF e.ev = "Request" THEN e.served ELSE FALSE],
+      now <- e.now, issuedAt <- ia, loggedOut <- lo, loggedOutJars <- lj, ttl <- c.ttl, admitted <- ad, window <- c.window, limit <- c.limit
 NoTok == [t \in AllTokens |-> -1]
 NoAdm == [a \in AllAddrs |-> <<>>]
-OInit == l = 0 /\ issuedAt = NoTok /\ loggedOut = {} /\ admitted = NoAdm /\ cfg = [ttl |-> 0, window |-> 0, limit |-> 0] /\ viol = {}
+OInit == l = 0 /\ issuedAt = NoTok /\ loggedOut = {} /\ loggedOutJars = {} /\ admitted = NoAdm /\ cfg = [ttl |-> 0, window |-> 0, limit |-> 0] /\ viol = {}
 Step ==
   /\ l < Len(TraceLog) /\ l' = l + 1
   /\ LET e == TraceLog[l + 1] IN
      IF e.ev = "Reset"
-     THEN /\ issuedAt' = NoTok /\ loggedOut' = {} /\ admitted' = NoAdm /\ viol' = viol
+     THEN /\ issuedAt' = NoTok /\ loggedOut' = {} /\ loggedOutJars' = {} /\ admitted' = NoAdm /\ viol' = viol
           /\ cfg' = [ttl |-> e.ttl, window |-> e.window, limit |-> e.limit]
           /\ (l' = Len(TraceLog)) => PrintT(<<"OBS", ToJson([consumed |-> l', viol |-> viol'])>>)
      ELSE
      /\ cfg' = cfg
      \* a token counts as issued by a successful login only if that login presented valid credentials
      /\ issuedAt' = IF e.ev = "Login" /\ e.good /\ e.status = 200 /\ e.token \in AllTokens THEN [issuedAt EXCEPT ![e.token] = e.now] ELSE issuedAt
-     /\ loggedOut' = IF e.ev = "Logout" /\ e.status = 200 /\ e.cookie \in AllTokens THEN loggedOut \cup {e.cookie} ELSE loggedOut
+     \* a logout presenting exactly one session cookie logs that token out; one presenting several logs out that cookie list
+     /\ loggedOut' = IF e.ev = "Logout" /\ e.status = 200 /\ Len(e.cookies) = 1 /\ e.cookies[1] \in AllTokens THEN loggedOut \cup {e.cookies[1]} ELSE loggedOut
+     /\ loggedOutJars' = IF e.ev = "Logout" /\ e.status = 200 /\ Len(e.cookies) >= 2 THEN loggedOutJars \cup {e.cookies} ELSE loggedOutJars
      \* attempts older than the window cannot share a window with this or any later attempt: dropped (keeps the check linear)
      /\ admitted' = IF e.ev = "Login" /\ e.adm
                     THEN [admitted EXCEPT ![e.addr] = Append(SelectSeq(@, LAMBDA ts : ts > e.now - cfg.window), e.now)] ELSE admitted
      /\ viol' = viol \cup
           {<<l + 1, n>> : n \in
-             (IF e.ev # "Request" \/ P(e, issuedAt', loggedOut', admitted', cfg)!C38_SessionRequired THEN {} ELSE {"C38_SessionRequired"}) \cup
-             (IF e.ev # "Login" \/ P(e, issuedAt', loggedOut', admitted', cfg)!C38_RateLimit THEN {} ELSE {"C38_RateLimit"})}
+             (IF e.ev # "Request" \/ P(e, issuedAt', loggedOut', loggedOutJars', admitted', cfg)!C38_SessionRequired THEN {} ELSE {"C38_SessionRequired"}) \cup
+             (IF e.ev # "Login" \/ P(e, issuedAt', loggedOut', loggedOutJars', admitted', cfg)!C38_RateLimit THEN {} ELSE {"C38_RateLimit"})}
      /\ (l' = Len(TraceLog)) => PrintT(<<"OBS", ToJson([consumed |-> l', viol |-> viol'])>>)
 OSpec == OInit /\ [][Step]_ovars
 ====
